@@ -120,7 +120,11 @@ func (c *c06Oracle) Check(w *World, o *Obs) []Violation {
 			}
 		}
 		cands[newPw+"x"] = "extension"
-		cands[newPw+"\x00"] = "extension"
+		if newPw != "" {
+			// (bcrypt itself cannot tell the empty password from NUL bytes:
+			// its key schedule cycles over "password NUL")
+			cands[newPw+"\x00"] = "extension"
+		}
 		if len(newPw) > 1 {
 			cands[newPw[:len(newPw)-1]] = "prefix"
 		}
@@ -161,10 +165,18 @@ func (c *c06Oracle) Check(w *World, o *Obs) []Violation {
 				out = append(out, viol("C06", "other_account_changed", st.Kind, o, fmt.Sprintf("password change of %s altered the row of %s", pid, p)))
 			}
 		}
+		// a request that also carries another account's valid remember cookie
+		// has that cookie rotated by the middleware: not an effect of the change
+		rotated := ""
+		if ck := o.presented("cookie"); ck != nil && o.uidBefore() == "" && ck.Known != nil && ck.Known.Kind == "rm" && usable(ck.Status) &&
+			ck.Known.Acct >= 0 && ck.Known.Acct < len(w.Accts) && w.Accts[ck.Known.Acct].PID != pid {
+			rotated = w.Accts[ck.Known.Acct].PID
+			w.Stats.Reach["c06_change_request_carried_other_cookie"]++
+		}
 		others := func(l []string) string {
 			var keep []string
 			for _, t := range l {
-				if !strings.HasPrefix(t, pid+"|") {
+				if !strings.HasPrefix(t, pid+"|") && !(rotated != "" && strings.HasPrefix(t, rotated+"|")) {
 					keep = append(keep, t)
 				}
 			}
